@@ -35,26 +35,13 @@ _str_line = re.compile(r'^"(.*)"$')
 
 
 def _decode_tla_string(line):
-    """A TLA+ string printed by TLC: backslash-escaped quotes and backslashes."""
-    m = _str_line.match(line)
-    if not m:
+    """A TLA+ string printed by TLC escapes quotes and backslashes like a JSON string literal."""
+    if not _str_line.match(line):
         return None
-    body = m.group(1)
-    out = []
-    i = 0
-    n = len(body)
-    while i < n:
-        c = body[i]
-        if c == "\\" and i + 1 < n:
-            nx = body[i + 1]
-            if nx in '"\\':
-                out.append(nx); i += 2; continue
-            if nx == "n":
-                out.append("\n"); i += 2; continue
-            if nx == "t":
-                out.append("\t"); i += 2; continue
-        out.append(c); i += 1
-    return "".join(out)
+    try:
+        return json.loads(line)
+    except ValueError:
+        return None
 
 
 def run(module, cfg=None, *, workers=1, scratch=None, env=None, timeout=3600, simulate=None,
